@@ -161,12 +161,23 @@ func workerMain(args []string) {
 }
 
 func spawnWorker(args ...string) (*sink, error) {
-	cmd := exec.Command(os.Args[0], append([]string{"--worker"}, args...)...)
-	cmd.Env = append(os.Environ(), "GOMAXPROCS=2")
+	// a worker that cannot be started or is killed from outside (shared, at times overloaded machine) is started
+	// again, twice at most; a worker that fails by itself fails every time
 	var out, errb bytes.Buffer
-	cmd.Stdout = &out
-	cmd.Stderr = &errb
-	if err := cmd.Run(); err != nil {
+	var err error
+	for attempt := 0; attempt < 3; attempt++ {
+		cmd := exec.Command(os.Args[0], append([]string{"--worker"}, args...)...)
+		cmd.Env = append(os.Environ(), "GOMAXPROCS=2")
+		out.Reset()
+		errb.Reset()
+		cmd.Stdout = &out
+		cmd.Stderr = &errb
+		if err = cmd.Run(); err == nil {
+			break
+		}
+		time.Sleep(200 * time.Millisecond)
+	}
+	if err != nil {
 		e := errb.String()
 		if len(e) > 3000 {
 			e = e[len(e)-3000:]
